@@ -20,6 +20,10 @@ SECMAP = re.compile(r'std::collections::(HashMap|BTreeMap)<std::string::String, 
 SECSEQ = re.compile(r'std::vec::Vec<\((&)?std::string::String, (&(mut )?)?(%s)' % PAYLOAD)
 
 
+def is_tracing_call(c):
+    return '$crate::event' in (c.exp or '') or 'tracing::' in c.callee
+
+
 def per_security_loops(prog):
     out = []
     for fn in prog.product_fns():
@@ -42,8 +46,14 @@ def run(prog, rep, tier='quick', config='default'):
                       'summary, gains and writer loops)' % len(loops))
     ordn = {}
     for (fn, nc, header, body, why) in loops:
-        ordn[fn.name] = ordn.get(fn.name, 0) + 1
-        base = '%s|loop#%d' % (fn.name, ordn[fn.name])
+        # label the loop by what it calls (stable when another loop is added to the function), not by its position
+        names = sorted({short(c.decl) for c in fn.calls if c.bb in body and c is not nc and not is_tracing_call(c) and
+                        not re.match(r'(std|core|alloc)::', c.decl) and not re.match(r'<?(std|core|alloc)::', c.callee)})
+        label = 'loop[%s]' % ','.join(names[:3]) if names else 'loop[]'
+        ordn[(fn.name, label)] = ordn.get((fn.name, label), 0) + 1
+        if ordn[(fn.name, label)] > 1:
+            label += '#%d' % ordn[(fn.name, label)]
+        base = '%s|%s' % (fn.name, label)
         normal, other = fn.classify_loop_exits(nc, body)
         if not other:
             rep.ok('R8a', base, where=nc.where(), fn=fn.name, detail='left only through exhaustion (iterates %s)' % why[:90])
